@@ -97,10 +97,10 @@ Lemma zeros_like_nlen {A B} (z : B) (l : list A) : nlen (zeros_like z l) = nlen 
 Proof. unfold zeros_like. rewrite !nlen_length, map_length. reflexivity. Qed.
 
 Lemma to_state_id_le i : to_state_id i <= i.
-Proof. unfold to_state_id. apply N.mod_le. lia. Qed.
+Proof. unfold to_state_id. lia. Qed.
 
-Lemma to_state_id_small i : i < 65536 -> to_state_id i = i.
-Proof. unfold to_state_id. intro H. apply N.mod_small. exact H. Qed.
+Lemma to_state_id_id i : to_state_id i = i.
+Proof. reflexivity. Qed.
 
 (* addState *)
 Lemma add_state_spec p e :
